@@ -1,7 +1,16 @@
 import LhasaV.Lemmas.Wrap
+import LhasaV.Lemmas.LhNewSafe
+import LhasaV.Lemmas.SmallSafe
+import LhasaV.Lemmas.PmSafe
 import LhasaV.Model.Decoders
 /-!
 # C09 — no compressed data can make any decompressor touch invalid memory
+
+`Dec.Reach D src n s`: `s` is the decoder state after `n` successful inner reads starting from
+`D.init src`, for an ARBITRARY callback source `src` (any bytes, any chunking). In the models every
+C array access (ring, code trees, `code_lengths[]`, static tables, history list) is a checked
+access against the capacity taken from the compiled source (`Gen.Decoders`), and the tree builder
+carries a ghost flag for writes outside the table; `fault` is what C would call undefined behaviour.
 -/
 namespace LhasaV.Props.C09
 open LhasaV
@@ -17,5 +26,64 @@ theorem wrap_le_asked {σ : Type} (rd : σ → List Byte × σ) (k : Nat) (s : W
     simp only
     split <;> (split <;> rfl)
   rw [h3]; omega
+
+/-! ### static-Huffman family: -lh4- -lh5- -lh6- -lh7- -lhx- -lk7- -/
+
+/-- reachable states of the lh_new decoders satisfy the safety invariant -/
+theorem lhnew_reach_inv (p : LhNew.Params) (hp : LhNew.GoodParams p) (src : Src) (n : Nat)
+    (s : LhNew.St) (hs : Dec.Reach (LhNew.dec p) src n s) : LhNew.Inv p s :=
+  Dec.reach_inv (LhNew.dec p) (LhNew.Inv p) (LhNew.init_inv p hp)
+    (fun s h out s' hr => LhNew.read_inv p hp s h out s' hr) src n s hs
+
+/-- for ANY input bytes, chunking and number of reads: the next inner read is not a fault
+(no tree, ring, `code_lengths[]` index out of range, no tree write outside its table) and
+produces at most 514 ≤ max_read bytes -/
+theorem lhnew_no_fault (p : LhNew.Params) (hp : LhNew.GoodParams p) (src : Src) (n : Nat)
+    (s : LhNew.St) (hs : Dec.Reach (LhNew.dec p) src n s) :
+    (∀ w, LhNew.read p s ≠ .fault w) ∧
+    (∀ out s', LhNew.read p s = .ok (out, s') → out.length ≤ 514) :=
+  ⟨LhNew.read_no_fault p hp s (lhnew_reach_inv p hp src n s hs),
+   fun out s' hr => LhNew.read_len p hp s (lhnew_reach_inv p hp src n s hs) out s' hr⟩
+
+/-- the five parameter sets extracted from the source satisfy the side conditions
+(capacities vs. table sizes vs. leaf bit): a shrunk array or changed macro breaks these -/
+theorem lhnew_params_good : LhNew.GoodParams LhNew.lh5 ∧ LhNew.GoodParams LhNew.lh6 ∧
+    LhNew.GoodParams LhNew.lh7 ∧ LhNew.GoodParams LhNew.lhx ∧ LhNew.GoodParams LhNew.lk7 :=
+  ⟨LhNew.goodParams_lh5, LhNew.goodParams_lh6, LhNew.goodParams_lh7, LhNew.goodParams_lhx, LhNew.goodParams_lk7⟩
+
+/-- 514 fits the output buffer of every lh_new instantiation (max_read from the compiled table) -/
+theorem lhnew_max_read_ok : 514 ≤ Gen.lh5MaxRead ∧ 514 ≤ Gen.lh52MaxRead ∧ 514 ≤ Gen.lh6MaxRead ∧
+    514 ≤ Gen.lh7MaxRead ∧ 514 ≤ Gen.lhxMaxRead ∧ 514 ≤ Gen.lk7MaxRead := by decide
+
+/-! ### -lzs-, -lz5-, stored (-lh0- -lz4- -pm0-), -pm1-, -pm2- -/
+
+theorem lzs_no_fault (src : Src) (n : Nat) (s : Lzs.St) (hs : Dec.Reach Lzs.dec src n s) :
+    (∀ w, Lzs.read s ≠ .fault w) ∧ (∀ out s', Lzs.read s = .ok (out, s') → out.length ≤ Gen.lzsMaxRead) :=
+  have hi := Dec.reach_inv Lzs.dec Lzs.Inv Lzs.init_inv (fun s h o s' hr => Lzs.read_inv s h o s' hr) src n s hs
+  ⟨Lzs.read_no_fault s hi, fun out s' hr => Lzs.read_len s hi out s' hr⟩
+
+theorem lz5_no_fault (src : Src) (n : Nat) (s : Lz5.St) (hs : Dec.Reach Lz5.dec src n s) :
+    (∀ w, Lz5.read s ≠ .fault w) ∧ (∀ out s', Lz5.read s = .ok (out, s') → out.length ≤ Gen.lz5MaxRead) :=
+  have hi := Dec.reach_inv Lz5.dec Lz5.Inv Lz5.init_inv (fun s h o s' hr => Lz5.read_inv s h o s' hr) src n s hs
+  ⟨Lz5.read_no_fault s hi, fun out s' hr => Lz5.read_len s hi out s' hr⟩
+
+theorem null_no_fault (src : Src) (n : Nat) (s : Src) (hs : Dec.Reach Null.dec src n s) :
+    (∀ w, Null.read s ≠ .fault w) ∧ (∀ out s', Null.read s = .ok (out, s') → out.length ≤ Gen.nullMaxRead) :=
+  have hi := Dec.reach_inv Null.dec Null.Inv Null.init_inv (fun s h o s' hr => Null.read_inv s h o s' hr) src n s hs
+  ⟨Null.read_no_fault s hi, fun out s' hr => Null.read_len s hi out s' hr⟩
+
+theorem pm2_no_fault (src : Src) (n : Nat) (s : Pm2.St) (hs : Dec.Reach Pm2.dec src n s) :
+    (∀ w, Pm2.read s ≠ .fault w) ∧ (∀ out s', Pm2.read s = .ok (out, s') → out.length ≤ Gen.pm2MaxRead) :=
+  have hi := Dec.reach_inv Pm2.dec Pm2.Inv Pm2.init_inv (fun s h o s' hr => Pm2.read_inv s h o s' hr) src n s hs
+  ⟨Pm2.read_no_fault s hi, fun out s' hr => Pm2.read_len s hi out s' hr⟩
+
+theorem pm1_no_fault (src : Src) (n : Nat) (s : Pm1.St) (hs : Dec.Reach Pm1.dec src n s) :
+    (∀ w, Pm1.read s ≠ .fault w) ∧ (∀ out s', Pm1.read s = .ok (out, s') → out.length ≤ Gen.pm1MaxRead) :=
+  have hi := Dec.reach_inv Pm1.dec Pm1.Inv Pm1.init_inv (fun s h o s' hr => Pm1.read_inv s h o s' hr) src n s hs
+  ⟨Pm1.read_no_fault s hi, fun out s' hr => Pm1.read_len s hi out s' hr⟩
+
+/-- Non-vacuity of the reachability hypothesis: the initial state of every decoder is reachable. -/
+example (src : Src) : Dec.Reach Pm2.dec src 0 (Pm2.dec.init src) ∧ Dec.Reach (LhNew.dec LhNew.lh5) src 0 (LhNew.init LhNew.lh5 src) :=
+  ⟨rfl, rfl⟩
 
 end LhasaV.Props.C09
